@@ -462,11 +462,17 @@ class StmtMixin(CallMixin):
     def loop_spec(self, node):
         k = self.loop_ordinal(node)
         spec = self.c.loops.get(k)
+        hdr = self.module.segment(node).split("\n")[0].strip().rstrip(":")
+        same = [sp for sp in self.c.loops.values() if sp.header is not None and " ".join(sp.header.split()) == " ".join(hdr.split())]
+        if (spec is None or spec.header is None or " ".join(spec.header.split()) != " ".join(hdr.split())) and len(same) == 1 \
+                and not str(same[0].header).endswith(" in *"):
+            # the loop specification is found by its header text when loops were added or removed around it: a loop the
+            # code no longer has simply leaves its specification unused, the remaining ones still bind
+            spec = same[0]
         if spec is None:
             raise BindingError("loop #%d at line %s of %s has no invariant/unroll in its contract"
                                % (k, node.lineno, self.c.qual))
         if spec.header is not None:
-            hdr = self.module.segment(node).split("\n")[0].strip().rstrip(":")
             want, have = " ".join(spec.header.split()), " ".join(hdr.split())
             # a header ending in " in *" binds the loop by its targets only: the invariants then have to hold
             # whatever the iterated expression is (its value is still evaluated from the real code)
@@ -521,8 +527,8 @@ class StmtMixin(CallMixin):
 
     def st_For(self, s, st):
         spec = self.loop_spec(s)
-        if s.orelse:
-            raise Unsupported("for-else (line %s)" % s.lineno)
+        if s.orelse and spec.unroll is not None and not spec.invariants:
+            raise Unsupported("for-else on an unrolled loop (line %s)" % s.lineno)
         if spec.unroll is not None and not spec.invariants:
             return self.unroll_for(s, st, spec)
         return self.cut_loop(s, st, spec, kind="for")
@@ -640,9 +646,19 @@ class StmtMixin(CallMixin):
                 continue
             if self.body_touches_ghost(body, g):
                 st.ghost[g] = self.fresh(st.ghost[g].ty, g)
-        if self.body_has_effects(body):
-            self.havoc_frame(st, only=self.body_write_set(body))
-            if self.body_has_await(body):
+        # a modelled iterator is stepped at the loop head: what its step model modifies is written by the loop as well
+        step = self.find_call_model("iter:" + ast.unparse(s.iter)) if isinstance(s, ast.For) else None
+        if self.body_has_effects(body) or step is not None:
+            ws = self.body_write_set(body)
+            if step is not None and ws is not None:
+                if step.havoc_all:
+                    ws = None
+                else:
+                    for loc in step.modifies:
+                        f = loc.rpartition(".")[2]
+                        ws = ws | (self.fields_named(f) if f != "*" else {(loc.rpartition(".")[0], "*")})
+            self.havoc_frame(st, only=ws)
+            if self.body_has_await(body) or (step is not None and step.havoc_all):
                 self.yield_havoc(st)
 
     def body_touches_ghost(self, body, g):
@@ -822,23 +838,40 @@ class StmtMixin(CallMixin):
                     sz.assume(self.dom_empty(dv))
                     if self.feasible(sz):
                         outs.append(Out("fall", sz))
-            # exit path
+            # exit path (a loop's `else:` block runs when the loop ends without `break`)
+            def leave(se):
+                if getattr(s, "orelse", None):
+                    return self.exec_block(s.orelse, se)
+                return [Out("fall", se)]
             sx = sh.copy()
             if kind == "while":
                 conds = self.ev_truth(s.test, sx)
                 for s3, t in conds:
                     se = s3.copy().assume(z3.Not(t))
                     if self.feasible(se):
-                        outs.append(Out("fall", se))
+                        outs.extend(leave(se))
                     sb = s3.copy().assume(t)
                     if self.feasible(sb):
+                        outs.extend(self.loop_body(s, sb, spec, dv, line, ord_body, kind))
+            elif dv["kind"] == "iter":
+                # one modelled step of the iterator: exhausted (None) -> leave, else bind the target and run the body;
+                # what the step raises propagates like any call's exceptions
+                for s3, r in self.apply_model(sh.copy(), dv["model"], None, [dv["obj"]], {}, s, "iter"):
+                    if not isinstance(r.ty, Opt):
+                        raise Unsupported("an iterator step model must return Opt[...] (line %s)" % s.lineno)
+                    se = s3.copy().assume(T.opt_is_none(r))
+                    if self.feasible(se):
+                        outs.extend(leave(se))
+                    sb = s3.copy().assume(z3.Not(T.opt_is_none(r)))
+                    if self.feasible(sb):
+                        self.assign(sb, s.target, T.opt_val(r))
                         outs.extend(self.loop_body(s, sb, spec, dv, line, ord_body, kind))
             else:
                 done = self.dom_done(dv, sh)          # also records the domain's range facts in sh
                 se = sh.copy().assume(done)
                 self.dom_exit(dv, se)
                 if self.feasible(se):
-                    outs.append(Out("fall", se))
+                    outs.extend(leave(se))
                 sb = sh.copy().assume(z3.Not(done))
                 if self.feasible(sb):
                     self.dom_bind(s, dv, sb)
@@ -894,6 +927,12 @@ class StmtMixin(CallMixin):
             if isinstance(v.ty, Opt):
                 self.fork_raise(s2, T.opt_is_none(v), "TypeError")
                 v = T.opt_val(v)
+            cm_it = self.find_call_model("iter:" + ast.unparse(it))
+            if cm_it is not None:
+                # an iterator whose steps the contract models (`c.call("iter:<expr>", ...)`: one call per step with the
+                # iterated object as a0, result None = exhausted): each step may also raise what the model says
+                res.append((s2, {"kind": "iter", "obj": v, "model": cm_it}))
+                continue
             if isinstance(v.ty, List) or v.ty == BYTES:
                 res.append((s2, {"kind": "list", "list": V(v.ty, v.t)}))
             elif isinstance(v.ty, Set):
@@ -921,6 +960,8 @@ class StmtMixin(CallMixin):
         $done (set of visited elements)."""
         k = dv["kind"]
         zero, one = T.intval(0).t, T.intval(1).t
+        if k == "iter":
+            return {}                   # a modelled iterator has no index: invariants speak of the program's own variables
         if k in ("range", "list"):
             base = dv["lo"].t if k == "range" else zero
             if phase == "init":
